@@ -329,6 +329,7 @@ pub(crate) fn mode(entry: &VfsEntry, octal: u32, sym: &str) -> RvResult<u32> {
     let mut group = 0;
     let mut op = '0';
     let mut applies = true; // false when the clause targets another kind of entry
+    let mut complete = false; // true once the current clause has its permissions processed
     let mut chars: Vec<char> = sym.chars().rev().collect();
 
     let mut state = State::Target;
@@ -338,6 +339,7 @@ pub(crate) fn mode(entry: &VfsEntry, octal: u32, sym: &str) -> RvResult<u32> {
                 group = 0; // reset group for next chmod
                 op = '0'; // reset op for next chmod
                 applies = true; // reset applicability for next chmod
+                complete = false; // a new clause has begun
 
                 loop {
                     if c != 'd' && c != 'f' && c != 'a' && c != ':' {
@@ -408,6 +410,7 @@ pub(crate) fn mode(entry: &VfsEntry, octal: u32, sym: &str) -> RvResult<u32> {
                 }
 
                 // Process permission
+                complete = true;
                 if applies {
                     match op {
                         '-' => mode &= !(group & perm),
@@ -417,6 +420,11 @@ pub(crate) fn mode(entry: &VfsEntry, octal: u32, sym: &str) -> RvResult<u32> {
                 }
             },
         }
+    }
+
+    // A clause that ends before its permissions e.g. `f:u+` or `a:` is malformed
+    if !complete {
+        return Err(VfsError::InvalidChmod(sym.to_string()).into());
     }
 
     Ok(mode)
